@@ -55,9 +55,10 @@ def strategy_(draw):
         # reference-marker discovery also on wider taxonomies (>=32 leaf pairs: the pairs-per-worker batch then depends
         # on the worker count) and restricted to a gene list, as when it is run against a query
         wide = stage == 'refm' and draw(st.booleans())
-        spec['ref'] = draw(pipeline.ref_dataset_specs(max_leaves=11 if wide else 6, min_leaves=9 if wide else 2,
-                                                      cells_per=6 if wide else None))
-        spec['rows_at_a_time'] = draw(st.integers(5, 25))
+        crowded = stage == 'stats' and draw(st.integers(0, 2)) == 0      # clusters of more than 255 cells
+        spec['ref'] = draw(pipeline.ref_dataset_specs(max_leaves=11 if wide else 3 if crowded else 6, min_leaves=9 if wide else 2,
+                                                      cells_per=6 if wide else draw(st.sampled_from([257, 300])) if crowded else None))
+        spec['rows_at_a_time'] = draw(st.integers(5, 25)) if not crowded else draw(st.sampled_from([40, 100, 255]))
         if stage == 'refm':
             ng = spec['ref']['n_genes']
             spec['refm'] = {'n_valid': draw(st.sampled_from([3, 5, 10, 30])),
@@ -235,6 +236,15 @@ def check(spec):
                 if diff:
                     raise Violation('result_depends_on_worker_count', {'stage': stage, 'n_processors': [k, p], 'differing': diff[:6]})
                 classes.append('other_worker_count')
+        elif stage == 'stats':
+            # float sums are only promised "to rounding" across partitions (C09) and are not compared across worker
+            # counts; the cell / expression COUNTS are exact integers whatever the partition and are
+            for p in sorted({1, k + 1} - {k}):
+                got = stage_runner.run_stage(dict(a, n_processors=p, work=str(d / f'w_p{p}'), tag=f'p{p}'))
+                diff = [key for key in ('n_cells', 'gt0', 'gt1', 'ge1', 'cluster_to_row', 'col_names') if base.get(key) != got.get(key)]
+                if diff:
+                    raise Violation('result_depends_on_worker_count', {'stage': stage, 'n_processors': [k, p], 'differing': diff})
+                classes.append('counts_with_other_worker_count')
     if n_reordered:
         classes.append('realised_reordering')
     if n_hash:
